@@ -188,6 +188,9 @@ pub struct Profile {
     pub client_faults: bool,
     /// after a reload trigger, emit a burst of open/change/close around the reload window
     pub reload_bursts: bool,
+    /// after an open / change, sometimes emit another change (or the close) of the same document
+    /// exactly when its debounced diagnostic task fires (interval -1 / 0 / +1 ms later)
+    pub timer_races: bool,
 }
 
 const LOCKY_METHODS: &[&str] = &[
@@ -238,6 +241,7 @@ pub fn profile(prop: &str) -> Profile {
         handshake_variants: false,
         client_faults: false,
         reload_bursts: false,
+        timer_races: false,
     };
     match prop {
         "C27" => base,
@@ -322,6 +326,7 @@ pub fn profile(prop: &str) -> Profile {
             force_push: true,
             allow_reindex: true,
             reload_bursts: true,
+            timer_races: true,
             ..base
         },
         _ => base,
@@ -384,7 +389,21 @@ pub fn generate(prop: &str, seed: u64) -> RunSpec {
         max_yields: *sw.pick(&[1, 2, 3]),
         change_points: *sw.pick(&[0, 1, 2, 4]),
         event_interval: *sw.pick(&[61, 61, 1, 7, 1000]),
+        stall_permille: 0,
+        stall_len: *sw.pick(&[16, 40]),
+        stall_target: String::new(),
     };
+    // half of the runs have one slow resource: acquisitions of one lock type stall often and long;
+    // a quarter stall rarely at any acquisition
+    let mut sched = sched;
+    match sw.below(4) {
+        0 | 1 => {
+            sched.stall_target = (*sw.pick(&["CancellationToken", "EmmyLuaAnalysis", "WorkspaceManager", "()", "RequestId", "Option<"])).to_string();
+            sched.stall_permille = *sw.pick(&[100, 300, 600]);
+        }
+        2 => sched.stall_permille = *sw.pick(&[5, 20]),
+        _ => {}
+    }
 
     let ndocs = r.range(1, p.max_docs as u64) as usize;
     let mut docs = Vec::new();
@@ -411,7 +430,8 @@ pub fn generate(prop: &str, seed: u64) -> RunSpec {
     let mut sent_ids: Vec<i32> = Vec::new();
     let mut pending_watch = 0usize;
     let mut cfg_version = 0u32;
-    let interval = swarm.diagnostic_interval.unwrap_or(500);
+    // the interval the server really uses: the default (500) unless an .emmyrc.json says otherwise
+    let mut interval = if swarm.emmyrc_initial { swarm.diagnostic_interval.unwrap_or(500) } else { 500 };
 
     let nsteps = r.range(p.min_steps as u64, p.max_steps as u64) as usize;
     let mut script = Vec::new();
@@ -455,11 +475,17 @@ pub fn generate(prop: &str, seed: u64) -> RunSpec {
             script.push(Step { gap, action: Action::Close { doc: d } });
         }
     }
+    // documents that are left alone for the rest of the script (so that the state a timer race
+    // left behind is what the final oracle sees)
+    let mut frozen = vec![false; ndocs];
     let mut guard = 0;
     while script.len() < nsteps && guard < nsteps * 20 {
         guard += 1;
         let kind = r.weighted(&weights);
         let d = r.usize_below(ndocs);
+        if frozen[d] && matches!(kind, 0 | 1 | 2 | 3 | 7 | 8 | 12) {
+            continue;
+        }
         let action = match kind {
             0 => {
                 if open[d] {
@@ -573,10 +599,36 @@ pub fn generate(prop: &str, seed: u64) -> RunSpec {
             }
             _ => Action::MiscNotification { kind: r.below(4) as u32 },
         };
+        let edited_doc = match &action {
+            Action::Open { doc, .. } | Action::Change { doc, .. } => Some(*doc),
+            _ => None,
+        };
+        if let Action::EmmyrcWrite { diagnostic_interval, .. } = &action {
+            interval = diagnostic_interval.unwrap_or(500);
+        }
         let is_trigger = matches!(action, Action::ChangeConfig { .. } | Action::EmmyrcWrite { .. });
         let is_emmyrc = matches!(action, Action::EmmyrcWrite { .. });
         let gap = gen_gap(&mut r, &p, interval);
         script.push(Step { gap, action });
+        // The per-file diagnostic task of an edit fires `interval` ms after it: the next edit (or
+        // the close) of the same document lands exactly there, while that task is between its
+        // diagnosis, its publication and the removal of its token.
+        if let (true, Some(d)) = (p.timer_races, edited_doc) {
+            if open[d] && r.chance(1, 4) {
+                let at = (interval.max(1) + r.below(3)).saturating_sub(1).max(1);
+                let action = if r.chance(1, 5) {
+                    open[d] = false;
+                    Action::Close { doc: d }
+                } else {
+                    ver[d] += 1;
+                    Action::Change { doc: d, text: doc_text(d, ver[d], r.below(p.flavours) as u32) }
+                };
+                script.push(Step { gap: Gap::SleepMs(at), action });
+                if r.chance(1, 2) {
+                    frozen[d] = true;
+                }
+            }
+        }
         // Faults placed inside operations that create in-flight state: right after a reload
         // trigger, a short burst of open / change / close lands in (or just around) the reload
         // window. An .emmyrc.json rewrite only reloads 2 s after its watcher event.
